@@ -283,9 +283,9 @@ fn run_lint_case(text: &str) -> String {
 // ---------------------------------------------------------------- generators
 
 const LOWER_NAMES: [&str; 8] = ["out", "x", "my_var", "v1", "é", "res.a", "ß2", "日本"];
-const MIXED_NAMES: [&str; 7] = ["Out", "X", "myVar", "V1", "RESULT", "res.A", "éA"];
+const MIXED_NAMES: [&str; 12] = ["Out", "X", "myVar", "V1", "RESULT", "res.A", "éA", "Äpfel", "éÉ", "Σx", "straße_Ü", "ǅ1"];
 const LOWER_LABELS: [&str; 5] = [":start", ":l1", ":end_loop", ":é", ":a.b"];
-const MIXED_LABELS: [&str; 5] = [":Start", ":L1", ":endLoop", ":END", ":a.B"];
+const MIXED_LABELS: [&str; 8] = [":Start", ":L1", ":endLoop", ":END", ":a.B", ":Étiquette", ":übEr", ":Ω"];
 const WORDS: [&str; 12] = ["hello", "World", "ABC", "x1", "\"two words\"", "\"Quoted UP\"", "${x}", "${Y}", "%{z}", "é", "a=b", "1"];
 
 fn words(rng: &mut Rng) -> String {
@@ -310,7 +310,8 @@ fn good_line(rng: &mut Rng) -> String {
         5 => format!("{} {} = echo {}", rng.pick_s(&LOWER_LABELS), rng.pick_s(&LOWER_NAMES), words(rng)),
         6 => rng.pick_s(&["", "# Comment With Caps", "   ", "echo a # Trailing", "\techo tab"]).to_string(),
         7 => rng.pick_s(&LOWER_LABELS).to_string(),
-        _ => rng.pick_s(&["exit 0", "x = is_defined Y", "noop A B", "y = not false", "unset X"]).to_string(),
+        // (`pwd` prints the working directory: the executable must run the script where it was started, like the library)
+        _ => rng.pick_s(&["exit 0", "x = is_defined Y", "noop A B", "y = not false", "unset X", "pwd", "d = pwd"]).to_string(),
     }
 }
 
@@ -339,7 +340,7 @@ fn bad_line(rng: &mut Rng, kind: Kind) -> String {
 fn script(rng: &mut Rng, kind: Kind, mixed: bool) -> String {
     let n = 1 + rng.below(5);
     let mut lines: Vec<String> = (0..n).map(|_| if mixed && rng.chance(1, 3) { mixed_line(rng) } else { good_line(rng) }).collect();
-    if mixed && !lines.iter().any(|l| l.chars().any(|c| c.is_ascii_uppercase())) {
+    if mixed && !lines.iter().any(|l| l.chars().any(|c| c.is_uppercase())) {
         lines.push(mixed_line(rng));
     }
     if kind != Kind::Succeed {
@@ -367,9 +368,33 @@ fn cli_req(args: &[&str], content: Option<&str>) -> String {
     format!("cli {} {}", enc_list(&a), content.map(enc_str).unwrap_or("-".to_string()))
 }
 
-fn in_domain_text(t: &str) -> bool {
-    // the model lower-cases ASCII only: exact when every non-ASCII character is a fixed point
-    t.chars().all(|c| c.is_ascii() || c.to_lowercase().eq(std::iter::once(c)))
+fn in_domain_text(_t: &str) -> bool {
+    // the model's lower-case test is exact for every text since it carries the table of
+    // characters that `char::to_lowercase` changes (request `lowertab` compares that table with
+    // the toolchain on every run)
+    true
+}
+
+/// the characters >= 128 that the toolchain's `char::to_lowercase` does not map to themselves,
+/// as inclusive ranges, in the format of the model's `lowertab` answer
+fn lower_table_of_toolchain() -> String {
+    let mut ranges: Vec<(u32, u32)> = vec![];
+    for cp in 0x80u32..=0x10FFFF {
+        if let Some(c) = char::from_u32(cp) {
+            let mut it = c.to_lowercase();
+            let fixed = it.next() == Some(c) && it.next().is_none();
+            if !fixed {
+                if let Some(last) = ranges.last_mut() {
+                    if last.1 + 1 == cp {
+                        last.1 = cp;
+                        continue;
+                    }
+                }
+                ranges.push((cp, cp));
+            }
+        }
+    }
+    ranges.iter().map(|(a, b)| format!("{}-{}", a, b)).collect::<Vec<_>>().join(",")
 }
 
 fn case(req: String, tags: Vec<&'static str>, dom: bool) -> Case {
@@ -390,11 +415,12 @@ impl Prop for C20Prop {
         }
     }
     fn fixed_cases(&self, _tier: Tier) -> Vec<Case> {
-        let ok = "echo file-run A\nx = set 1\n";
+        let ok = "echo file-run A\nx = set 1\npwd\n";
         let crash = "echo before\nbadcmd\necho after\n";
         let exit3 = "echo one\nexit 3\necho two\n";
         let perr = "echo one\necho \"abc\n";
         let mut out = vec![];
+        out.push(case("lowertab".to_string(), vec!["unicode-lower-table"], true));
         let forms: Vec<(Vec<&str>, &'static str)> = vec![
             (vec![], "form:repl"),
             (vec!["--version"], "form:version"),
@@ -511,6 +537,7 @@ impl Prop for C20Prop {
     fn run_impl(&self, req: &str, _model_out: &str) -> String {
         let t: Vec<&str> = req.split(' ').collect();
         match t[0] {
+            "lowertab" => lower_table_of_toolchain(),
             "cli" => {
                 let args = dec_list(t[1]).expect("args");
                 let content = if t.len() > 2 && t[2] != "-" { Some(dec_str(t[2]).expect("content")) } else { None };
